@@ -171,6 +171,8 @@ pub struct Agg {
     pub runs_with_variants: u64,
     #[serde(default)]
     pub runs_repeat_checked: u64,
+    #[serde(default)]
+    pub runs_fresh_reference: u64,
     /// times the baton was taken from a holder found blocked on a lock of the code under test
     #[serde(default)]
     pub takeovers: u64,
@@ -224,6 +226,7 @@ impl Agg {
         }
         self.runs_with_variants += o.runs_with_variants;
         self.runs_repeat_checked += o.runs_repeat_checked;
+        self.runs_fresh_reference += o.runs_fresh_reference;
         self.takeovers += o.takeovers;
         if self.samples.len() < 4 {
             for s in o.samples {
@@ -354,6 +357,9 @@ fn account(agg: &mut Agg, scen: &Scenario, index: u64, ev: &crate::eval::Eval) {
     agg.max_depth = agg.max_depth.max(scen.doc.depth() as u64);
     if !scen.variants.is_empty() {
         agg.runs_with_variants += 1;
+    }
+    if scen.fresh_reference {
+        agg.runs_fresh_reference += 1;
     }
     if scen.repeat_check {
         agg.runs_repeat_checked += 1;
@@ -595,6 +601,76 @@ pub fn run_isolated_file(path: &Path, timeout: Duration) -> Iso {
             let _ = child.wait();
             Iso::Hang
         }
+    }
+}
+
+// ------------------------------------------------------------------ fresh-process reference
+
+#[derive(Serialize, Deserialize)]
+struct RefRequest {
+    scenario: Scenario,
+    /// (variant, delivered length, width)
+    keys: Vec<(usize, usize, usize)>,
+}
+
+/// `h2tsim refserve`: read one request (a JSON line) from stdin, compute the
+/// one-shot references it asks for in this pristine process, print them.
+pub fn cmd_refserve() -> i32 {
+    set_limits();
+    let mut line = String::new();
+    if std::io::stdin().lock().read_line(&mut line).is_err() {
+        return 2;
+    }
+    let req: RefRequest = match serde_json::from_str(&line) {
+        Ok(r) => r,
+        Err(e) => {
+            eprintln!("h2tsim refserve: bad request: {}", e);
+            return 2;
+        }
+    };
+    let nvar = req.scenario.num_variants();
+    let docs: Vec<Vec<u8>> = (0..nvar).map(|v| req.scenario.variant_doc(v).materialise()).collect();
+    let specs: Vec<ConfigSpec> = (0..nvar).map(|v| req.scenario.variant_config(v)).collect();
+    let mut out: Vec<(crate::exec::Outcome, crate::exec::Outcome)> = Vec::new();
+    for (var, limit, w) in req.keys {
+        let var = var.min(nvar - 1);
+        out.push(crate::exec::reference(&specs[var], &docs[var], limit, w, req.scenario.fuel));
+    }
+    println!("{}", serde_json::to_string(&out).unwrap());
+    0
+}
+
+/// The references for `keys`, computed by a fresh process; None if that
+/// could not be done (the caller then computes them in-process).
+pub fn fresh_references(
+    scen: &Scenario,
+    keys: &[(usize, usize, usize)],
+) -> Option<Vec<(crate::exec::Outcome, crate::exec::Outcome)>> {
+    let mut child = Command::new(self_exe())
+        .arg("refserve")
+        .stdin(Stdio::piped())
+        .stdout(Stdio::piped())
+        .stderr(Stdio::null())
+        .spawn()
+        .ok()?;
+    let req = RefRequest {
+        scenario: scen.clone(),
+        keys: keys.to_vec(),
+    };
+    {
+        let mut stdin = child.stdin.take()?;
+        let mut text = serde_json::to_string(&req).ok()?;
+        text.push('\n');
+        stdin.write_all(text.as_bytes()).ok()?;
+    }
+    let mut s = String::new();
+    std::io::Read::read_to_string(&mut child.stdout.take()?, &mut s).ok()?;
+    let _ = child.wait();
+    let v: Vec<(crate::exec::Outcome, crate::exec::Outcome)> = serde_json::from_str(s.trim()).ok()?;
+    if v.len() == keys.len() {
+        Some(v)
+    } else {
+        None
     }
 }
 
@@ -1399,6 +1475,7 @@ fn write_evidence(
             "stall_backstop_s": STALL_SECS,
             "runs_with_a_second_document_or_configuration": agg.runs_with_variants,
             "runs_executed_twice_for_repeat_check": agg.runs_repeat_checked,
+            "runs_judged_against_references_from_a_fresh_process": agg.runs_fresh_reference,
             "baton_takeovers_from_blocked_holders": agg.takeovers,
             "worker_processes": workers,
             "worker_deaths_attributed": aborts,
